@@ -3,6 +3,7 @@ import LivesimVerif.Model.Limiter
 import LivesimVerif.Model.Scte
 import Driver.Util
 import Driver.Recv
+import Driver.Core
 /-! Line-protocol driver: one operation per input line, one canonical result per output line. -/
 open Drv
 
@@ -67,23 +68,27 @@ def opScte (args : List String) : String :=
     | .ev x => s!"ev splice={x.splice} id={x.id} dur={x.dur} pts={x.pts} brk={x.brk} adj={x.adj}"
   | _ => "bad-op"
 
-def step (line : String) : String :=
+def step (st : DState) (line : String) : DState × String :=
   match (line.trimAscii.toString.splitOn " ").filter (· ≠ "") with
-  | "parse" :: args => opParse args
-  | "lim" :: args => opLim args
-  | "scte" :: args => opScte args
-  | "ctr" :: args => opCtr args
-  | "buf" :: args => opBuf args
-  | "gen" :: args => opGen args
-  | _ => "bad-op"
+  | "parse" :: args => (st, opParse args)
+  | "lim" :: args => (st, opLim args)
+  | "scte" :: args => (st, opScte args)
+  | "ctr" :: args => (st, opCtr args)
+  | "buf" :: args => (st, opBuf args)
+  | "gen" :: args => (st, opGen args)
+  | "asset" :: args => defAsset st args
+  | "rep" :: args => defRep st args
+  | "seg" :: args => (st, opSeg st args)
+  | _ => (st, "bad-op")
 
-partial def loop (h : IO.FS.Stream) (out : IO.FS.Stream) : IO Unit := do
+partial def loop (h : IO.FS.Stream) (out : IO.FS.Stream) (st : DState) : IO Unit := do
   let line ← h.getLine
   if line.isEmpty then return ()
-  out.putStrLn (step line)
-  loop h out
+  let (st', o) := step st line
+  out.putStrLn o
+  loop h out st'
 
 def main : IO Unit := do
   let out ← IO.getStdout
-  loop (← IO.getStdin) out
+  loop (← IO.getStdin) out {}
   out.flush
